@@ -102,6 +102,10 @@ impl Property for C12 {
             NodesMode::ClosestPlus(l) => l.iter().filter(|n| addr_class(&n.addr) == 5 && n.id != own).map(|n| n.id).collect::<Vec<_>>(),
             _ => vec![],
         }).collect();
+        let hearsay_refs: Vec<([u8; 20], SocketAddr)> = sc.world.stubs.iter().flat_map(|s| match &s.nodes {
+            NodesMode::ClosestPlus(l) => l.iter().filter(|n| addr_class(&n.addr) == 5 && n.id != own).map(|n| (n.id, n.addr)).collect::<Vec<_>>(),
+            _ => vec![],
+        }).collect();
         sc.reals.push(real);
         let t_start = *rng.pick(&[0u64, 0, 1_000]);
         sc.at(t_start, Op::Start { node: 0 });
@@ -129,7 +133,16 @@ impl Property for C12 {
                     (adv_id(k), addr(v6, 3, 1000 + k + j as u32, 6881))
                 })
                 .collect();
-            let bytes = match rng.below(9) {
+            // a node known by hearsay only "answers" out of the blue, from its own address and with
+            // its own id, a request the victim never made (never-used prefix / wrong length): that
+            // is not an answer, the contact stays questionable
+            let (from, id, kind) = if !hearsay_refs.is_empty() && rng.chance(1, 5) {
+                let (hid, haddr) = *rng.pick(&hearsay_refs);
+                (haddr, hid, rng.range(4, 8))
+            } else {
+                (from, id, rng.below(9))
+            };
+            let bytes = match kind {
                 0 => ping(&rng.bytes_in(0, 8), &id),
                 1 => find_node(&rng.bytes_in(0, 8), &id, &own, None),
                 2 => get_peers(&rng.bytes_in(0, 8), &id, &rng.id20(), None),
@@ -228,7 +241,7 @@ impl Property for C12 {
             .steps
             .iter()
             .filter_map(|s| match &s.op {
-                Op::Raw { from, .. } => Some(*from),
+                Op::Raw { from, .. } if addr_class(from) == 3 => Some(*from),
                 _ => None,
             })
             .collect();
@@ -322,7 +335,7 @@ impl Property for C12 {
         v
     }
     fn rule(&self) -> &'static str {
-        "one real node (serving or read-only) with 2..20 stubs (0..2 of them configured as routers) whose accepted answers also name the node's own id, router addresses, duplicates and up to 40 unreachable addresses; 0..3 searches; an adversary sends 5..60 datagrams from unknown addresses while the node bootstraps / idles / searches: the four query kinds (some claiming the id of a node the victim only knows by hearsay), responses with ids of length 0..32 != 8 (random, or derived from an id the node really used by appending or cutting bytes), and 8-byte ids whose action prefix is >= 2^32 (never handed out), some before any request was sent, each naming up to 8 further adversary identities and carrying unique values; message faults (drop, delay, duplicate, reorder, send errors, stalls) at swarm-drawn rates, plus a single-fault sweep; table dump and load_contacts sampled every 0.7..4.3 s. non-trivial = unsolicited datagrams were sent and the table held at least one node; distinct = distinct order digests"
+        "one real node (serving or read-only) with 2..20 stubs (0..2 of them configured as routers) whose accepted answers also name the node's own id, router addresses, duplicates and up to 40 unreachable addresses; 0..3 searches; an adversary sends 5..60 datagrams from unknown addresses while the node bootstraps / idles / searches: the four query kinds (some claiming the id of a node the victim only knows by hearsay), unsolicited responses sent from the very address and id of such a hearsay-only node, responses with ids of length 0..32 != 8 (random, or derived from an id the node really used by appending or cutting bytes), and 8-byte ids whose action prefix is >= 2^32 (never handed out), some before any request was sent, each naming up to 8 further adversary identities and carrying unique values; message faults (drop, delay, duplicate, reorder, send errors, stalls) at swarm-drawn rates, plus a single-fault sweep; table dump and load_contacts sampled every 0.7..4.3 s. non-trivial = unsolicited datagrams were sent and the table held at least one node; distinct = distinct order digests"
     }
     fn assumptions(&self) -> Vec<&'static str> {
         vec!["in-flight corruption is off in this family: adversary identities are recognised by value in table dumps", "forged responses that reuse a low, guessable action prefix or a timed-out id of a live search are deliberately not asserted (the statement does not cover them)"]
